@@ -1615,15 +1615,15 @@ fn scale_trace(prop: &str, seed: u64) -> Trace {
             let boundary: u64 = *g.rng.pick(&[1u64 << 32, 1 << 32, 1 << 31, 65535 * 2048, 65536 * 2048]);
             // somebody else's note, whose offset the key's first event beyond the boundary will
             // share modulo the boundary (when the boundary is a power of two)
-            let off_b = g.offset_counter;
             let note = EvSpec { id: g.rng.bytes32(), pk: other, kind: 1, at: T0 + 1, tags: vec![], content: vec![0xb0; 33] };
+            let note_id = note.id;
             push_store(&mut g, &mut ops, note);
             let v1 = EvSpec { id: g.rng.bytes32(), pk, kind: 10002, at: T0 + 1, tags: vec![], content: vec![1; 20] };
             let w1 = EvSpec { id: g.rng.bytes32(), pk, kind: 30002, at: T0 + 1, tags: vec![vec!["d".into(), "far".into()]], content: vec![1; 20] };
             push_store(&mut g, &mut ops, v1);
             push_store(&mut g, &mut ops, w1);
             if boundary.is_power_of_two() && g.rng.chance(2, 3) {
-                ops.push(Op::Inflate(boundary + off_b));
+                ops.push(Op::InflateOnto(boundary, note_id));
                 // lands exactly `boundary` above the note; a deletion of its address follows
                 let w2 = EvSpec { id: g.rng.bytes32(), pk, kind: 30002, at: T0 + 2, tags: vec![vec!["d".into(), "far".into()]], content: vec![0xb0; 33] };
                 push_store(&mut g, &mut ops, w2);
